@@ -194,7 +194,7 @@ def x_tw(p):
         n_arg = np.uint8(n)
     else:
         n_arg = n
-    res, exc = [], None
+    res, exc, islist = [], None, False
     try:
         out = rt.get_trough_wells(n_arg, arg)
         if p.get("mutate"):
@@ -206,10 +206,12 @@ def x_tw(p):
                     out.pop(0)
             out = rt.get_trough_wells(n_arg, arg)
         res = [str(x) for x in out]
+        islist = isinstance(out, list)
     except Exception as e:  # noqa
         exc = e
     return {
         "fn": "tw",
+        "islist": bool(islist),
         "id": f"n={n_arg} len={p.get('len')} k={wells['k']}" + (" after-mutation" if p.get("mutate") else ""),
         "n": n,
         "ncls": ncls,
@@ -389,9 +391,23 @@ def _wells_arg(a, present):
     return v
 
 
+def _another_user_of_the_format(rt, shape):
+    """Somebody else in the process asked the public helpers for the well table and the index map of the same plate format
+    and edited what it got (blanked wells of a layout, popped entries): these are the caller's own objects."""
+    try:
+        arr = rt.make_well_array(int(shape[0]), int(shape[1]))
+        arr[...] = "X00"
+        d = rt.make_well_index_dict(int(shape[0]), int(shape[1]))
+        d.clear()
+    except Exception:  # noqa (formats the helpers refuse are refused by the transforms, too)
+        pass
+
+
 @executor("shift")
 def x_shift(p):
     rt = robotools()
+    _another_user_of_the_format(rt, p["A"])
+    _another_user_of_the_format(rt, p["B"])
     exc0, exc, exc2 = None, None, None
     shifted, unshifted, shifted2, argafter = NOSHAPE, NOSHAPE, NOSHAPE, NOSHAPE
     try:
@@ -434,6 +450,8 @@ def x_rot(p):
     sw = (sh[1], sh[0])
     exc = None
     res = {"cw": NOSHAPE, "ccw": NOSHAPE, "cwccw": NOSHAPE, "ccwcw": NOSHAPE, "cw4": NOSHAPE, "cw2": NOSHAPE, "argafter": NOSHAPE}
+    _another_user_of_the_format(rt, sh)
+    _another_user_of_the_format(rt, sw)
     try:
         r1, r2 = rt.WellRotator(sh), rt.WellRotator(sw)
         if p.get("scribble"):
@@ -469,6 +487,7 @@ def x_rand(p):
     exc = None
     tab1, tab2 = [], []
     res = {"rnd": NOSHAPE, "back": NOSHAPE, "rnd2": NOSHAPE, "argafter": NOSHAPE}
+    _another_user_of_the_format(rt, sh)
     try:
         kw = {} if p["mode"] == "default" else {"mode": p["mode"]}
         r1 = rt.WellRandomizer(sh, p["seed"], **kw)
@@ -706,14 +725,19 @@ def project_plan(plan, p):
     def whole(v):
         f = float(v)
         return int(f) if f.is_integer() and abs(f) < 2**31 else -1
-    return {"instr": instr, "x": xs, "xsup": bool(supported), "vstock": whole(plan.v_stock), "vdiluent": whole(plan.v_diluent),
+    # the reported range is the range of the reported concentrations (the very same floats: compared here, literally)
+    try:
+        rangeok = bool(float(plan.xmin) == float(np.min(x)) and float(plan.xmax) == float(np.max(x)))
+    except Exception:  # noqa
+        rangeok = False
+    return {"instr": instr, "x": xs, "xsup": bool(supported), "rangeok": rangeok, "vstock": whole(plan.v_stock), "vdiluent": whole(plan.v_diluent),
             "vmaxobs": [whole(v) for v in np.asarray(plan.vmax).flatten()], "Robs": int(plan.R), "Cobs": int(plan.C)}
 
 
 @executor("dilplan")
 def x_dilplan(p):
     rt = robotools()
-    exc, proj = None, {"instr": [], "x": [], "xsup": False, "vstock": -1, "vdiluent": -1, "vmaxobs": [], "Robs": 0, "Cobs": 0}
+    exc, proj = None, {"instr": [], "x": [], "xsup": False, "rangeok": False, "vstock": -1, "vdiluent": -1, "vmaxobs": [], "Robs": 0, "Cobs": 0}
     kept = True
     try:
         kw = plan_params_python(p)
